@@ -17,6 +17,69 @@ pub struct RefTx {
     pub outcome: Option<Outcome>,
     /// Storage dump after the embedder settled the transaction.
     pub dump: String,
+    /// Digest of the contract state and balances as the wrapped `MemoryStorage` itself holds
+    /// them after the transaction was settled (comparable with a real `MemoryClient`).
+    pub tables: u64,
+}
+
+/// Contract slots and the balances of every (generated contract, asset slot) pair, read from a
+/// plain `MemoryStorage`.
+pub fn tables_digest(st: &fuel_vm::storage::MemoryStorage, world: &World) -> u64 {
+    use fuel_vm::storage::ContractsAssetsStorage;
+    let mut d = crate::kernel::Digest::new();
+    for (k, v) in st.all_contract_state() {
+        d.bytes(k.as_ref());
+        d.bytes(v.as_ref().as_ref());
+    }
+    for c in &world.contract_ids {
+        for a in 0..NA as u8 {
+            let b = st.contract_asset_id_balance(c, &asset(a)).ok().flatten();
+            d.u64(b.map(|x| x.wrapping_add(1)).unwrap_or(0));
+        }
+    }
+    d.0
+}
+
+/// The real `MemoryClient` (one long-lived `Transactor`) runs the whole history, including the
+/// transactions the VM refuses; after every transaction its storage must hold what the
+/// reference's holds, and a completed transaction must produce the reference's receipts.
+pub fn run_real_client(world: &World, sc: &Scenario, reference: &[RefTx], ctx: &mut RunCtx) -> bool {
+    use fuel_tx::Receipt;
+    use fuel_vm::checked_transaction::IntoChecked;
+    use fuel_vm::interpreter::InterpreterParams;
+    use fuel_vm::memory_client::MemoryClient;
+    let params = InterpreterParams::new(sc.gas_price, &world.params);
+    let mut client: MemoryClient<MemoryInstance, SimEcal> = MemoryClient::new(MemoryInstance::new(), world.genesis.clone(), params);
+    let mut after_error = false;
+    for (i, spec) in sc.txs.iter().enumerate() {
+        let tx = world.script_tx(i, spec);
+        let Ok(checked) = tx.into_checked_basic(sc.height.into(), &world.params) else { continue };
+        if reference[i].outcome.is_none() {
+            // not ready (fee / balance checks): the reference did not execute it either
+            continue;
+        }
+        let receipts: Vec<Receipt> = client.transact(checked).to_vec();
+        let got = tables_digest(AsRef::<fuel_vm::storage::MemoryStorage>::as_ref(&client), world);
+        let r = reference[i].outcome.as_ref().expect("checked above");
+        ctx.event("client-tx", i as u64, got);
+        if after_error && !r.is_err {
+            ctx.stats.inc("probe.client_tx_after_refused_tx");
+        }
+        if got != reference[i].tables {
+            return ctx.violate(
+                "replica-divergence",
+                "replica-divergence:memory-client:storage",
+                format!("tx {i}: after the long-lived MemoryClient executed the history, its contract state / balances differ from the reference replica's (fresh interpreter per transaction){}", if after_error { "; an earlier transaction of the history was refused by the VM" } else { "" }),
+            );
+        }
+        if !r.is_err && receipts != r.receipts {
+            return ctx.violate("replica-divergence", "replica-divergence:memory-client:receipts", format!("tx {i}: the long-lived MemoryClient produced {} receipts, the reference {}", receipts.len(), r.receipts.len()));
+        }
+        if r.is_err {
+            after_error = true;
+        }
+    }
+    false
 }
 
 pub fn poke_regs(vm: &mut Vm, spec: &ScriptSpec) {
@@ -33,7 +96,7 @@ pub fn run_reference(world: &World, sc: &Scenario, ctx: &mut RunCtx) -> Vec<RefT
             Err(p) => {
                 ctx.stats.inc("probe.tx_rejected_at_check");
                 ctx.event("tx-rejected", i as u64, 0);
-                out.push(RefTx { prep: p, outcome: None, dump: storage.dump() });
+                out.push(RefTx { prep: p, outcome: None, dump: storage.dump(), tables: tables_digest(&storage.inner, world) });
             }
             Ok(ready) => {
                 let snapshot = storage.clone();
@@ -72,7 +135,8 @@ pub fn run_reference(world: &World, sc: &Scenario, ctx: &mut RunCtx) -> Vec<RefT
                 ctx.event("tx", i as u64, fnv1a(o.state.as_bytes()));
                 ctx.event("tx-receipts", o.receipts.len() as u64, fnv1a(&o.tx_bytes));
                 let dump = storage.dump();
-                out.push(RefTx { prep: Prep::Ready, outcome: Some(o), dump });
+                let tables = tables_digest(&storage.inner, world);
+                out.push(RefTx { prep: Prep::Ready, outcome: Some(o), dump, tables });
             }
         }
     }
